@@ -740,6 +740,12 @@ class _NodesTree:
 
             if node.type == 'error_leaf' and node.token_type in ('DEDENT', 'ERROR_DEDENT'):
                 break
+            if node.type == 'decorated' \
+                    and node.children[-1].start_pos[1] != node.start_pos[1]:
+                # Error recovery can attach a definition to a decorator that is
+                # indented differently. That only parses the same way again in
+                # the very same context.
+                break
             # TODO this check might take a bit of time for large files. We
             # might want to change this to do more intelligent guessing or
             # binary search.
